@@ -1,10 +1,20 @@
 #!/bin/bash
-# tools/try_mutant.sh <patch.diff> <Cxx> [tier]   - apply to /repo, run the check, undo
+# tools/try_mutant.sh <patch.diff> <Cxx> [tier]
+# applies the change to a scratch copy of /repo (so that nothing else running against /repo is disturbed),
+# runs the check against it through AEGEAN_REPO, removes the copy.   With REAL=1: apply to /repo itself and undo.
 set -u
 patch=$(realpath "$1"); pid=$2; tier=${3:-quick}
-git -C /repo diff --quiet || { echo "/repo dirty"; exit 2; }
-git -C /repo apply "$patch" || { echo "patch does not apply"; exit 2; }
-/verif/check "$pid" "$tier" 2>&1 | tail -12
-rc=${PIPESTATUS[0]}
-git -C /repo checkout -- .
+if [ "${REAL:-0}" = 1 ]; then
+  git -C /repo diff --quiet || { echo "/repo dirty"; exit 2; }
+  git -C /repo apply "$patch" || { echo "patch does not apply"; exit 2; }
+  /verif/check "$pid" "$tier" 2>&1 | tail -12; rc=${PIPESTATUS[0]}
+  git -C /repo checkout -- .
+else
+  d=/tmp/mut/repo_$$; mkdir -p /tmp/mut; rm -rf "$d"
+  git -C /repo worktree add --detach "$d" HEAD >/dev/null 2>&1 || { echo "worktree failed"; exit 2; }
+  git -C "$d" apply "$patch" || { echo "patch does not apply"; git -C /repo worktree remove --force "$d"; exit 2; }
+  AEGEAN_REPO="$d" /verif/check "$pid" "$tier" 2>&1 | tail -12; rc=${PIPESTATUS[0]}
+  git -C /repo worktree remove --force "$d"
+fi
+PYTHONPATH=/repo /venv/bin/python /verif/tools/translate.py --repo /repo >/dev/null 2>&1   # restore coq/Gen for the real tree
 echo "exit=$rc"
